@@ -24,9 +24,11 @@ type Env struct {
 	S     *streamsql.Streamsql
 	Eager bool // run every other thread to quiescence after each operation
 	Ops   int
+	OpNs  []int64 // virtual time at which each Emit was issued
 }
 
 func (e *Env) Emit(r Row) {
+	e.OpNs = append(e.OpNs, sched.Cur().Elapsed())
 	e.S.Emit(r)
 	e.Ops++
 	if e.Eager {
@@ -42,6 +44,8 @@ func (e *Env) Sleep(d time.Duration) {
 type detResult struct {
 	Batches []Batch
 	AtOps   []int // number of harness operations completed when each batch was delivered
+	AtNs    []int64 // virtual time of each delivery
+	OpNs    []int64 // virtual time of each Emit
 	Status  sched.Status
 	Panic   string
 	ExecErr string
@@ -85,6 +89,7 @@ func detExec(sql string, o detOpts, script func(e *Env)) detResult {
 		s.AddSyncSink(func(rows []map[string]any) {
 			r.Batches = append(r.Batches, copyBatch(rows))
 			r.AtOps = append(r.AtOps, e.Ops)
+			r.AtNs = append(r.AtNs, sched.Cur().Elapsed())
 		})
 		script(e)
 		h := o.Horizon
@@ -93,6 +98,7 @@ func detExec(sql string, o detOpts, script func(e *Env)) detResult {
 		}
 		e.Sleep(h)
 		r.Ops = e.Ops
+		r.OpNs = e.OpNs
 		if !o.NoStop {
 			s.Stop()
 			sched.Quiesce()
